@@ -327,6 +327,45 @@ func ruleKeyUpdate(c *Ctx, r *Report) {
 		}
 		r.Check(len(loops) >= 1 && early == "" && cur && old, rule6b, short(rc), c.pos(rc.Pos()), "the current generation and every retained generation with matching epoch bits are offered", "the search over the retained read generations can stop before all of them were considered (exit at "+early+"), or a generation set is not consulted: with two retained generations sharing the two on-wire epoch bits a record is tried against the wrong one only and dropped")
 	}
+	// (6c) ... and the consumer tries every candidate: a candidate under which the record does not
+	// open sends the loop to the next candidate, never out of the loop
+	for _, s := range c.CallsTo(nameIs("(*dtls.Conn).openCiphertextWithGeneration")) {
+		call, ok := s.Call.(*ssa.Call)
+		if !ok {
+			continue
+		}
+		fn := s.Fn
+		var loop *natLoop
+		for _, l := range naturalLoops(fn) {
+			if l.blocks[call.Block()] && (loop == nil || len(l.blocks) < len(loop.blocks)) {
+				loop = l
+			}
+		}
+		key := short(fn) + ":failed-candidate-continues"
+		if loop == nil {
+			r.Bad(rule6b, key, c.ipos(call), "the record is opened under one generation only (no loop over the candidates)")
+			continue
+		}
+		errV := errResult(call)
+		if errV == nil {
+			r.Unk(rule6b, key, c.ipos(call), "open result without an error value")
+			continue
+		}
+		fail := failAssumption(errV)
+		w := &Walk{Fn: fn, Assume: fail}
+		hdrFirst := firstNonPhi(loop.header)
+		w.Visit = func(in ssa.Instruction, _ Env) bool { return in != hdrFirst }
+		w.After(call)
+		left := ""
+		for in := range w.Reached {
+			if in.Parent() == fn && !loop.blocks[in.Block()] {
+				if left == "" || c.ipos(in) < left {
+					left = c.ipos(in)
+				}
+			}
+		}
+		r.Check(left == "", rule6b, key, c.ipos(call), "a candidate that does not open the record leads to the next candidate", "after a candidate generation failed to open the record the loop is left ("+left+") instead of trying the next candidate: with two retained generations sharing the two on-wire epoch bits (four key updates apart) a late record of the older one is dropped")
+	}
 	// TrafficKeyState fields only under its mutex
 	const rule7 = "traffic-keys-locked"
 	tks := "internal/state.TrafficKeyState"
